@@ -110,6 +110,150 @@ def build_obligation(inst):
     raise ValueError(kind)
 
 
+class ArrStub:
+    """An array described only by (shape, axes): axes[k] = which ORIGINAL axis (None for an inserted size-1 axis)
+    position k holds.  reshape may only drop/insert size-1 axes or keep the layout - anything else is an assertion."""
+
+    def __init__(self, shape, axes):
+        from symx.symint import SymInt
+        self.shape = tuple(shape)
+        self.axes = tuple(None if (not isinstance(sz, SymInt) and sz == 1) else a for sz, a in zip(shape, axes))
+
+    def reshape(self, shape):
+        shape = tuple(shape)
+        src = list(zip(self.shape, self.axes))
+        out = []
+        i = 0
+        for t in shape:
+            if bool(t == 1):
+                out.append(None)
+                if i < len(src) and bool(src[i][0] == 1):
+                    i += 1
+            else:
+                while i < len(src) and bool(src[i][0] == 1):
+                    i += 1
+                assert i < len(src), "reshape invents a non-1 dim"
+                assert bool(src[i][0] == t), "reshape merges/splits dims"
+                out.append(src[i][1])
+                i += 1
+        while i < len(src):
+            assert bool(src[i][0] == 1), "reshape drops a non-1 dim"
+            i += 1
+        return ArrStub(shape, out)
+
+
+def _bookkeeping_ob(inst):
+    """Engine B: the dimension bookkeeping of the REAL tensor_to_funsor / Tensor.__init__ / tensor_to_data on a
+    recording array stub with UNBOUNDED symbolic sizes (which dims have size 1 is decided by forking)"""
+    _, rank, event_rank, named = inst
+
+    def ob(mk):
+        import types
+        import numpy as np
+        import z3
+        import funsor.tensor as FT
+        import funsor.ops as fops
+        from funsor.ops.array import is_numeric_array
+        from harness.oblig import Decline
+        from harness.symterms import raw
+        from symx.symint import SymInt, ival
+        batch = rank - event_rank
+        dim_to_name = OrderedDict((d - batch, "n%d" % d) for d in named)
+        name_to_dim = {v: k for k, v in dim_to_name.items()}
+        sizes = [mk.int("s%d" % i, 1) for i in range(rank)]
+        for i in range(batch):
+            if i not in named:
+                mk.assume(sizes[i] == 1)          # unnamed batch dims must have size 1 (documented)
+        if not mk.symbolic:
+            from funsor import Reals
+            from funsor.terms import to_data, to_funsor
+            x = np.arange(int(np.prod(sizes, dtype=int)), dtype=float).reshape(tuple(sizes))
+            try:
+                f = to_funsor(x, Reals[tuple(sizes[batch:])], dim_to_name)
+                y = to_data(f, name_to_dim)
+            except (ValueError, AssertionError):
+                return [(True, None)]
+            nb = y.ndim - event_rank
+
+            def sq(a, ne):
+                k = a.ndim - ne
+                return a.reshape(tuple(s for s in a.shape[:k] if s != 1) + a.shape[k:])
+            ok = sq(y, event_rank).shape == sq(x, event_rank).shape and bool((sq(y, event_rank) == sq(x, event_rank)).all())
+            return [(bool(ok), None)]
+        if not getattr(is_numeric_array, "_verif_stub", False):
+            is_numeric_array.register(ArrStub)(lambda x: True)
+            is_numeric_array._verif_stub = True
+
+        def dom(name, **kw):
+            return type(name, (), dict(kw, num_elements=1))
+
+        class _BintF:
+            def __getitem__(self, size):
+                return dom("BintSym", size=size, dtype=size, shape=())
+
+        class _ArrayF:
+            def __getitem__(self, ds):
+                return dom("ArraySym", dtype=ds[0], size=ds[0], shape=tuple(ds[1]))
+
+        class _RealsF:
+            def __getitem__(self, shape):
+                return dom("RealsSym", dtype="real", shape=tuple(shape) if isinstance(shape, tuple) else (shape,))
+
+        class OpsProxy:
+            def __getattr__(self, k):
+                return getattr(fops, k)
+
+            @staticmethod
+            def permute(x, dims):
+                dims = list(dims)
+                return ArrStub([x.shape[d] for d in dims], [x.axes[d] for d in dims])
+
+            @staticmethod
+            def is_numeric_array(x):
+                return True
+
+        stubs = dict(Bint=_BintF(), Array=_ArrayF(), Reals=_RealsF(), ops=OpsProxy())
+
+        def rebind(fn):
+            g = dict(fn.__globals__)
+            g.update(stubs)
+            return types.FunctionType(fn.__code__, g, fn.__name__, fn.__defaults__, fn.__closure__)
+        t2f, t2d = rebind(FT.tensor_to_funsor), rebind(FT.tensor_to_data)
+        x = ArrStub(sizes, list(range(rank)))
+        out = stubs["Reals"][tuple(sizes[batch:])]
+        saved = (FT.Array, FT.ops)
+        FT.Array, FT.ops = stubs["Array"], stubs["ops"]          # Tensor.__init__ looks these up in funsor.tensor
+        try:
+            with raw:
+                try:
+                    f = t2f(x, out, dim_to_name)
+                    y = t2d(f, name_to_dim)
+                except ValueError as e:
+                    raise Decline(str(e)[:80])
+        finally:
+            FT.Array, FT.ops = saved
+        # "the original array up to size-1 batch dimensions": right-aligned comparison
+        conds = []
+        off = rank - len(y.shape)
+        for q in range(min(0, off), rank):
+            pos = q - off
+            if q < 0:
+                conds.append(ival(y.shape[pos]) == 1)
+                continue
+            if pos < 0:
+                conds.append(ival(sizes[q]) == 1)
+                conds.append(z3.BoolVal(q < batch))
+                continue
+            sz, ax = y.shape[pos], y.axes[pos]
+            conds.append(ival(sz) == ival(sizes[q]))
+            if ax is not None:
+                conds.append(z3.BoolVal(ax == q))
+            else:
+                conds.append(ival(sz) == 1)
+        return [(z3.And(*conds), None)]
+    return ob
+
+
 def _b(mk, cond):
     import z3
     return z3.BoolVal(bool(cond)) if mk.symbolic else bool(cond)
@@ -139,6 +283,8 @@ def worker(inst):
     if inst[0] == "materialize":
         return materialize_worker(inst)
     from harness.oblig import decide
+    if inst[0] == "bookkeeping":
+        return decide(str(inst), _bookkeeping_ob(inst), timeout_ms=10000, twin=True, max_paths=512)
     return decide(str(inst), build_obligation(inst), timeout_ms=5000, twin=True)
 
 
@@ -189,6 +335,11 @@ def instances(tier, seed):
                             if how in ("lazy_binary", "contraction") and (dtype != "real" or ev):
                                 continue
                             out.append(("align", sizes, ev, dtype, perm, how))
+    # Engine B: bookkeeping with unbounded symbolic sizes
+    for rank, event_rank in [(1, 0), (2, 0), (2, 1), (3, 1), (3, 0), (4, 1), (4, 2)] + ([(5, 1), (5, 2)] if tier != "quick" else []):
+        batch = rank - event_rank
+        for named in itertools.chain.from_iterable(itertools.combinations(range(batch), k) for k in range(1, batch + 1)):
+            out.append(("bookkeeping", rank, event_rank, tuple(named)))
     # materialize: lazy integer-valued expressions
     from lang.prog import binary, num, slice_, var, subs, leaf
     u, v = var("u", ("bint", 2)), var("v", ("bint", 3))
@@ -207,7 +358,7 @@ def main():
                       align="every (partial) permutation of <= 4 inputs (seeded subset at 4 in quick); Tensor.align, Align, lazy Binary.align, Contraction.align",
                       materialize="11 lazy integer expressions")
     chk.assumptions = ["these operations are parametric in the contents, so the solver queries are syntactically trivial: the quantifier that matters is the enumerated structure (each cell is a distinct symbol, so a moved cell is a different term)",
-                       "Engine-B lemma with unbounded sizes (design probe p15) not ported; Gaussian.align / Delta.align covered under C12/C14"]
+                       "Engine B (bookkeeping with unbounded sizes): interning constructors and funsor.ops.permute replaced by stubs, the array is a recording stub (shape, axis provenance); Gaussian.align / Delta.align covered under C12/C14"]
     chk.floor = 200
     chk.finish(rule="one instance per (shape, named dims, dtype, permutation) / (inputs, permutation, route); distinct = descriptor",
                trusted_base=["z3 5.1", "symx"])
